@@ -185,7 +185,7 @@ def play_category(props=None):
         for s2, r2 in ex.call_value(s_later, pl, [rid], {}, node):
             n += 1
             pc = [t for t in s2.trace if t['name'] == 'TapeRecorder.play']
-            obl.append(Obl('C19/%s/player_replays_the_id_with_this_categorys_playback_function' % U, 'C19', s2,
+            obl.append(Obl('C19/%s/player_replays_the_id_with_this_categorys_playback_function' % U, ('C19', 'C08'), s2,
                            z3.And(z3.BoolVal(len(pc) == 1 and r2[0] == 'val'), pc[0]['pos'][0] == s2.rd(selfv, 'tape_recorder'), pc[0]['pos'][1] == rid,
                                   pc[0]['pos'][2] == s2.rd(tuning, 'playback_function'), r2[1] == pc[0]['outcome'][1]) if len(pc) == 1 and r2[0] == 'val' else z3.BoolVal(False), r2))
     infos = [info, repo.find('playback.studio.equalizer:Equalizer.__init__')[3]]
